@@ -691,14 +691,15 @@ def nm_branch(r, n):
 
 def monitor_nm(cmd, step, r, n, seen_small):
     """property predicates on one init / step of SimplexDownhill, independent of the model.
-    seen_small: whether some objective value < 1e100 has been evaluated since init (else m_best still holds the literal)"""
+    seen_small: whether some objective value < 1e100 has been evaluated since init (only selects the key of a value failure: before the
+    repair d2acfe00 m_best kept the literal 1e100 in that case)"""
     w = "`%s` %s: " % (cmd, "init" if r["kind"] == "NI" else "step %d" % step); bad = []
     bv, bp = r["best"]
     if not r["vc"]: bad.append(("nm:vertex-value", w + "a simplex vertex carries a value that is not the objective at the vertex"))
     if r["fchk"] == "nopoint" or fh(r["fchk"]) != bv:
         key = "nm:value:all-values>=1e100" if not seen_small else "nm:value"
         bad.append((key, w + "reported value %r != objective at the reported point %s (%s)%s" % (bv, bp, r["fchk"],
-                    "; every objective value so far is >= 1e100, the literal SimplexDownhill::init stores in m_best.value, so m_best was never assigned (its point is the one the object held before init)" if not seen_small else "")))
+                    "; every objective value so far is >= 1e100, the literal SimplexDownhill::init stores in m_best.value: m_best was never assigned (its point is the one the object held before init) — the defect repaired by d2acfe00 (vertex 0 must be taken unconditionally)" if not seen_small else "")))
     if len(r["post"]) != n + 1 or any(len(p) != n for _, p in r["post"]):
         bad.append(("nm:shape", w + "simplex does not consist of n+1 points of dimension n"))
     if r["kind"] == "NS" and not bad:
@@ -706,7 +707,7 @@ def monitor_nm(cmd, step, r, n, seen_small):
             bad.append(("nm:simplex-best-worse", w + "best value of the simplex increased %r -> %r" % (min(v for v, _ in r["pre"]), min(v for v, _ in r["post"]))))
         if bv > r["prebest"][0]:
             bad.append(("nm:reported-worse", w + "reported value increased %r -> %r" % (r["prebest"][0], bv)))
-    if seen_small and not bad:
+    if not bad:
         if bv != min(v for v, _ in r["post"]) or r["best"] not in r["post"]:
             bad.append(("nm:reported-not-simplex-best", w + "reported solution %r is not a best vertex of the simplex" % (r["best"],)))
     return bad
@@ -814,7 +815,7 @@ def main():
         "in the corner c1 + cMu = 1 of CMA (large populations, low dimension) positive definiteness is proved equivalent to full rank of evolution path + selected steps (hsig = 1); that rank condition itself is a property of the sample: monitored",
         "VDCMA: D stays positive iff every component of meanS exceeds -1 (proved); the code does not enforce it: monitored on every recorded update (vcor:D-not-positive)",
         "theorems about the Cholesky-factor models are over the real numbers (exact square roots); floating-point rounding is covered by the 1e-10 comparison only",
-        "SimplexDownhill: value = objective at the reported point is proved under the hypothesis that some initial vertex has a value below the literal 1e100 of init(); without it the class reports (1e100, stale point) (theorem C11_simplex_literal_witness; observed on the real class by the NM probe with objective 1e150 (1 + |x|^2), printed as FINDING-CANDIDATE and stored in the evidence, not a registered known finding)",
+        "SimplexDownhill: the model follows init() as repaired by d2acfe00 (vertex 0 taken unconditionally); the defect before it (all objective values >= the literal 1e100 => solution() = (1e100, stale point)) is kept as the regression theorem C11_simplex_literal_witness about old_sd_init, as NM probes with objective 1e150 (1 + |x|^2) (key nm:value:all-values>=1e100) and in corpus/C11",
         "CrossEntropyMethod: variance_j = 0 iff noise = 0 and the elite agrees in coordinate j is exact over Q; in floating point the monitor allows a squared deviation below 1e-300 to underflow and a mean of identical values to differ from them by rounding",
         "NaN objective values and dimension 0 are outside the SimplexDownhill / CrossEntropyMethod models (comparisons are modelled with the strict order only; step() divides by the dimension)"]
     ck.proofs()
@@ -1236,7 +1237,7 @@ def main():
         mlines = [model_line_nm(r, n) for _, _, _, r, n in recs]
         rcm, mout, merr = run_lines(model, mlines, os.path.join(tmpd, "nm_model.txt")) if mlines else (0, [], "")
         if rcm != 0 or len(mout) != len(mlines): raise RuntimeError("model driver failed on NI/NS lines: rc=%s %s" % (rcm, merr[-500:]))
-        ndis = 0; first = None; branches = {}; tied_steps = 0; candidates = []; badcmds = set()
+        ndis = 0; first = None; branches = {}; tied_steps = 0; badcmds = set()
         for (cmd, role, st, r, n), mo in zip(recs, mout):
             evals += 1
             if r["kind"] == "NS":
@@ -1245,9 +1246,6 @@ def main():
             bad = monitor_nm(cmd, st, r, n, r["seen_small"])
             if bad:
                 key, msg = bad[0]; badcmds.add(cmd)
-                if key == "nm:value:all-values>=1e100" and role == "probe" and ck.match_known(key) is None:
-                    if not candidates: candidates.append({"case": cmd, "observed": msg})
-                    continue
                 if ck.match_known(key) is None: nmon += 1
                 else: nknown[0] += 1
                 if key not in seen_keys and tie_reports[0] < 10:
@@ -1292,9 +1290,7 @@ def main():
                   "vertex values = objective, simplex best and reported value never increase, reported solution is a best vertex, run on 4*f visits the same simplices; every branch reached" % (len(recs), len(allc)),
                   ndis == 0 and nmon == 0 and covered, "" if (ndis == 0 and nmon == 0 and covered) else "%d monitor failures, %d disagreements, branches %s" % (nmon, ndis, branches))
         ck.notes["nm_records"] = len(recs); ck.notes["nm_branch_counts"] = branches; ck.notes["nm_steps_with_tied_vertex_values"] = tied_steps
-        if candidates:
-            log("FINDING-CANDIDATE property=C11 (not registered in known_findings.json; the theorem C11_simplex_reports_objective carries the matching hypothesis): " + candidates[0]["observed"])
-            ck.notes["simplex_1e100_literal_witness"] = candidates[0]
+        ck.notes["simplex_1e100_literal_probes"] = probes
 
     # ---------------- CrossEntropyMethod step by step: C11DirectModel.cem_sample / cem_select_update / cem_step on the recorded draws and samples
     if xcors:
